@@ -38,6 +38,19 @@ CLAIMED = {
              "real runs of a generated nested library), name-mangled private slots of Scope.",
         technique="Coq proof over hand model + extracted-model correspondence + whole-run relation oracle",
         design="4/C14"),
+    "C10": dict(
+        text="Coq theorems over an executable byte-buffer model of the C string helpers (ShroudLenTrim, StrCopy, StrBlankFill, "
+             "StrAlloc, StrArrayAlloc): Fortran text reaches C as its trailing-blank-free part + NUL on all three call forms; a C "
+             "string comes back truncated or blank padded to the declared length with no NUL inside and nothing written past the "
+             "variable; NULL/empty -> blank; no out-of-bounds access under the stated preconditions (and the exact-fit "
+             "char* intent(out) case proved to read out of bounds). Table theorem (vm_compute over a table regenerated from "
+             "statements.py for c and c++ on every run): every helper call site passes the declared length where a capacity is "
+             "needed and the trimmed length where the text length is needed. Tie: helper C text pulled from whelpers at run time, "
+             "compiled with gcc and g++ under ASan/UBSan, exhaustive small-scope comparison with the extracted model.",
+        note="Trusted: Coq kernel, extraction, harness, gcc/g++/libc. Modelled: the helpers and the call-site argument classes; "
+             "the Fortran-side trim()//C_NULL_CHAR and std::string internals are taken at their standard meaning.",
+        technique="Coq proof over hand model + regenerated table theorem + compiled-helper correspondence",
+        design="4/C10"),
 }
 
 PENDING = {}
